@@ -218,10 +218,23 @@ def check_kernel(name, dim, npiece):
         lo, hi = float(np.nextafter(b, 0)), float(np.nextafter(b, 10))
         for fn, nm in ((lambda q: W(q, 1.0), 'W'),
                        (lambda q: k.dwdq(q, 1.0), 'dwdq')):
-            a, c = fn(lo), fn(hi)
+            a, m, c = fn(lo), fn(b), fn(hi)
             if abs(a - c) > 256 * EPS * abs(W(0.0, 1.0)):
                 add('discontinuity', '%s jumps from %r to %r across q=%r' % (
                     nm, a, c, b))
+            # the boundary point itself belongs to one of the two pieces
+            elif abs(m - a) > 256 * EPS * abs(W(0.0, 1.0)):
+                add('discontinuity', '%s is %r exactly at q=%r but %r / %r '
+                    'one ulp below / above' % (nm, m, b, a, c))
+        # ... and the same through r = q*h for exactly representable h
+        for h in (2.0 ** -10, 8.0):
+            S = abs(W(0.0, h))
+            for fn, nm in ((lambda q: W(q * h, h), 'W'),
+                           (lambda q: k.dwdq(q * h, h), 'dwdq')):
+                a, m = fn(lo), fn(b)
+                if abs(m - a) > 256 * EPS * S:
+                    add('discontinuity', '%s is %r exactly at q=%r (h=%r) '
+                        'but %r one ulp below' % (nm, m, b, h, a))
     # normalisation at h = 1 and another h
     for h in (1.0, 0.125):
         edges = [0.0] + list(bounds) + [rs]
